@@ -14,6 +14,7 @@ import (
 // affected program is re-loaded and re-analysed; the rule must report the mutated construct.
 
 type mutant struct {
+	Benign bool // a behaviour-preserving rewrite: the rules must stay silent
 	Name   string
 	File   string // repo-relative
 	Old    string // substring (must occur exactly once)
@@ -27,13 +28,16 @@ func addMutants(prop string, ms ...mutant) { mutantCatalogue[prop] = append(muta
 
 // loadMutants reads checker/mutants.json: {"C04": [{"name":..,"file":..,"old":..,"new":..,"expect":..}, …], …}
 func loadMutants() {
-	var m map[string][]struct{ Name, File, Old, New, Expect string }
+	var m map[string][]struct {
+		Name, File, Old, New, Expect string
+		Benign                       bool
+	}
 	if err := readJSON(filepath.Join(verifDir(), "checker", "mutants.json"), &m); err != nil {
 		return
 	}
 	for prop, ms := range m {
 		for _, x := range ms {
-			addMutants(prop, mutant{Name: x.Name, File: x.File, Old: x.Old, New: x.New, Expect: x.Expect})
+			addMutants(prop, mutant{Name: x.Name, File: x.File, Old: x.Old, New: x.New, Expect: x.Expect, Benign: x.Benign})
 		}
 	}
 }
@@ -44,7 +48,7 @@ func runSelfTest(r *Run, spec *propSpec) {
 	if len(ms) == 0 {
 		return
 	}
-	r.Rule(spec.ID+".SELF", "checker sensitivity: every catalogued source rewrite (overlay, in memory) that breaks a clause must be reported by the rule naming the mutated construct; a surviving mutant fails the thorough check")
+	r.Rule(spec.ID+".SELF", "checker sensitivity: every catalogued source rewrite (overlay, in memory) that breaks a clause must be reported by the rule naming the mutated construct, and every catalogued behaviour-preserving rewrite (renamed locals, cached operands, split statements, added checks, reordered independent checks, equivalent conditions, loop forms) must not be reported; a surviving mutant or a false alarm fails the thorough check")
 	st := &MutantStats{}
 	r.Mutants = st
 	for _, m := range ms {
@@ -55,6 +59,17 @@ func runSelfTest(r *Run, spec *propSpec) {
 			continue
 		}
 		st.Applied++
+		if m.Benign {
+			if len(viol) == 0 {
+				st.Killed++
+				st.Names = append(st.Names, m.Name+": silent (benign rewrite)")
+				r.Pass(spec.ID+".SELF", m.Name, m.File, "behaviour-preserving rewrite is not reported")
+			} else {
+				st.Names = append(st.Names, m.Name+": FALSE ALARM")
+				r.FailKind("checker-overreports", spec.ID+".SELF", m.Name, fmt.Sprintf("behaviour-preserving rewrite of %s is reported: %s", m.File, viol[0]))
+			}
+			continue
+		}
 		hit := ""
 		for _, v := range viol {
 			if strings.Contains(v, m.Expect) {
